@@ -42,6 +42,14 @@ fn main() {
             let stage: u32 = args[3].parse().unwrap_or(0);
             props::publish::c23_gen_child(&args[2], stage, args[4] == "abort");
         }
+        "dump-common" => {
+            let leaf = wormhole_circuit::circuit::circuit_logic::WormholeCircuit::new(zk_circuits_common::circuit::wormhole_leaf_circuit_config()).unwrap().build_circuit();
+            let c = &leaf.common;
+            println!("degree_bits={} num_constants={} num_pis={} quotient_degree_factor={} num_partial_products={} k_is={} fri={:?}", c.fri_params.degree_bits, c.num_constants, c.num_public_inputs, c.quotient_degree_factor, c.num_partial_products, c.k_is.len(), c.fri_params.reduction_arity_bits);
+            for g in &c.gates { println!("gate {} constants={} degree={}", g.0.id(), g.0.num_constants(), g.0.degree()); }
+            println!("selectors {:?}", c.selectors_info);
+            std::process::exit(0);
+        }
         "c29-child" => {
             let ei: usize = args[2].parse().unwrap_or_else(|_| usage());
             let c: usize = args[3].parse().unwrap_or_else(|_| usage());
@@ -129,6 +137,7 @@ fn dispatch(ctx: &Ctx) -> bool {
         "C32" => props::secrets::run_c32(ctx),
         "C33" => props::secrets::run_c33(ctx),
         "C34" => props::leanspec::run(ctx),
+        "C11" => props::recursion::run(ctx),
         "C23" => props::publish::run(ctx),
         "C28" => props::config::run_c28(ctx),
         "C29" => props::config::run_c29(ctx),
